@@ -55,6 +55,20 @@ pub fn build_app(threads: usize, state: LogState) -> App<LogState> {
         .with_cors_config("/cors/a", Cors::wildcard())
         .with_cors_config("/cors/b", Cors::new().with_origin("https://a.example").with_origin("https://b.example").with_method(Method::Get).with_method(Method::Post).with_header("X-Custom").with_header("Content-Type"))
         .with_cors_config("/cors/c", Cors::new().with_wildcard_origin())
+        // a host whose CORS configuration is set for the whole sub-app first and whose routes are registered afterwards
+        .with_host(
+            "cors.hv",
+            humphrey::SubApp::new()
+                .with_cors(Cors::new().with_origin("https://h.example").with_method(Method::Get).with_method(Method::Put).with_header("X-Host"))
+                .with_path_aware_route("/pa/*", |req: Request, st: Arc<LogState>, route: &'static str| {
+                    record(&req, &st);
+                    Response::new(StatusCode::OK, format!("P|{}|{}", route, req.uri))
+                })
+                .with_route("/late", |req: Request, st: Arc<LogState>| {
+                    record(&req, &st);
+                    Response::new(StatusCode::OK, "L|/late")
+                }),
+        )
 }
 
 pub fn free_port() -> u16 {
